@@ -517,8 +517,9 @@ Proof.
     destruct (add_defaults c s2) as [s3|e3 x3|n3] eqn:R3; cbn [rbind] in H; try discriminate. cbn [pc] in H3.
     unfold vres_to_res in H. destruct (validate c (mt s3)); try discriminate. inversion H; subst. exact (proj1 H3).
   - exfalso. cbn [post] in H. destruct (is_set s_ignore_errors c); [|discriminate].
-    destruct (add_env c stp) as [s1|e1 s1|x1]; [| |discriminate];
-      (destruct (add_defaults c s1) as [s2|e2 s2|x2]; discriminate).
+    destruct (resolve_pending c stp) as [s0|e0 s0|x0]; [| |discriminate];
+      (destruct (add_env c s0) as [s1|e1 s1|x1]; [| |discriminate];
+        (destruct (add_defaults c s1) as [s2|e2 s2|x2]; discriminate)).
   - discriminate.
 Qed.
 End Coh.
